@@ -16,7 +16,7 @@ def sched_of(events):
     return [(e[1], e[2]) for e in events if e[0] == 'sched']
 
 
-def classify(progs, sched, st=None, obs=None):
+def classify(progs, sched, st=None, obs=None, events=None):
     """role-based regions over the schedule (which window of which command another client's mutation fell into)
     -> {region: z3 predicate over the request fields}.  The lookup-then-store window is a known defect only for commands that
     carry no CAS, or a CAS that was not the item's CAS when the episode started (a guessed future token can make the conditional
@@ -55,9 +55,15 @@ def classify(progs, sched, st=None, obs=None):
                     if cmd in ('add', 'replace', 'append', 'prepend', 'increment', 'decrement'):
                         add('rmw-window:' + cmd, z3.Or(inp.cas == 0, inp.cas != st.cas[0], z3.Not(st.live(0)), rejected(t, cmd)) if st is not None else inp.cas == 0)
         # conditional store on an absent key: get_mut (nothing there) ... foreign step ... insert
+        # outcome of this thread's k-th map.get_mut step: 'miss' only when the key really was absent
+        outcomes = [e[3] for e in (events or []) if e[0] == 'map.get_mut' and e[1] == t and len(e) > 3]
+        nth = -1
         for a in mine:
             if sched[a][1] != 'map.get_mut':
                 continue
+            nth += 1
+            if events is not None and (nth >= len(outcomes) or outcomes[nth] != 'miss'):
+                continue       # the known window is "the key was absent at the lookup"; anything else is not it
             nxt = [b for b in mine if b > a]
             if nxt and sched[nxt[0]][1] in ('map.insert', 'atomic.fetch_max', 'atomic.fetch_add'):
                 ins = [b for b in nxt if sched[b][1] == 'map.insert']
@@ -243,7 +249,7 @@ def explore_program(ck, names, constraints=None, allow_stale=False, policy=None,
         if p.status != 'ok':
             continue
         obs, final, sched, dl = p.out
-        R = classify(progs, sched, st, obs) if known_regions else {}
+        R = classify(progs, sched, st, obs, p.events) if known_regions else {}
 
         def on_w(m, where, obs=obs, final=final, sched=sched):
             try:
